@@ -37,6 +37,27 @@ def gen_cases(ctx, n):
         k = ctx.rng.choice([1, 1, 2, 2, 3, 4])
         args = ctx.rng.sample(free, min(k, len(free)))
         vals = [mc.gen_value(ctx.rng, "mixed" if i % 5 == 4 else "int") for _ in args]
+        # exponents of ** with a literal base that are free locations: set through the generated function to 0 / small
+        # integers (how the literal base prints decides (-x) ** n against -(x ** n))
+        exps = []
+
+        def find_pow(e):
+            if isinstance(e, list) and e and e[0] == "bin":
+                if e[1] == "**" and e[3][0] == "ref":
+                    exps.append(e[3][1])
+                find_pow(e[2]); find_pow(e[3])
+            elif isinstance(e, list) and e and e[0] == "proj":
+                find_pow(e[2])
+        for op in c["ops"]:
+            if op[0] == "set" and op[2][0] == "expr":
+                find_pow(op[2][1])
+        exps = [p for p in exps if json.dumps(flat(p)) not in defined]
+        if exps and ctx.rng.random() < 0.8:
+            p = ctx.rng.choice(exps)
+            if p in args:
+                vals[args.index(p)] = ctx.rng.choice([0, 0, 0, 2, 1, 3])
+            else:
+                args.append(p); vals.append(ctx.rng.choice([0, 0, 0, 2, 1, 3]))
         fst = [n for l, n in c["store"] if l == "f"][0]
         called = [m_ for op in c["ops"] if op[0] == "set" and op[2][0] == "expr"
                   for m_ in __import__("re").findall(r'\["callsum", (\["f", \["[ai]", "sum"\]\])', json.dumps(op[2][1]))]
